@@ -43,6 +43,9 @@ structure RecurFacts where
   usesCopyEdge : Bool
   /-- `Clone` and `SubTree` create their root with `CopyNode` -/
   rootsCopied : Bool
+  /-- `NewNode` and `NewEdge` give every reference-typed field a fresh value (`make(...)`) or none
+      (nil / left out): a field the copy function does not touch shares nothing either -/
+  newFresh : Bool
   deriving DecidableEq, Repr
 
 abbrev Table := List Field
@@ -76,6 +79,6 @@ def Kind.isRef : Kind → Bool
 def allRefFieldsFresh (tb : Table) (rf : RecurFacts) : Bool :=
   (tb.all fun f => f.kind != .other && (!f.kind.isRef || f.treat == .deepCopy || f.treat == .notCopied)) &&
   (tb.all fun f => f.kind != .extStruct || f.treat != .shared) &&
-  rf.connectsCopies && rf.usesCopyEdge && rf.rootsCopied
+  rf.connectsCopies && rf.usesCopyEdge && rf.rootsCopied && rf.newFresh
 
 end Gotree.C15
